@@ -11,14 +11,14 @@ _LIFE_ASSUME = ["macro-step granularity: one op = one step the harness can sched
 PROPS["C11"] = {
     "streams": ["life-reb"], "audit": ["C11.lean", "C11Run.lean"], "modules": ["GoDcp.Props.C11", "GoDcp.Props.C11Run"], "retry_divergence": 2, "timeout": 900,
     "rule": _LIFE_RULE, "assumptions": _LIFE_ASSUME, "design_ref": "DESIGN.md §7 C11, §6 F5 F9a F9b",
-    "level_text": "Lean model of Open/Close/Rebalance/rebalance/wait/listenEnd with Go timer semantics (Model/Life.lean), validated against the real stream on every run; kernel-checked: a notification inside the window only postpones the reopen to now+delay (notify_in_window_debounces), the full 'one cycle per burst' statement is refuted for the first-ever rebalance (one_cycle_per_burst_full_refuted = finding F5), run-level invariants (callbacks bracketed, no delivery while closed, reopen on the latest membership, exactly one cycle per burst outside F5) in Props/C11Run when present. The Lean monitor (callback automaton, no-delivery-while-closed, fail-stop and F5 classifiers) runs on every real trace.",
+    "level_text": "Lean model of Open/Close/Rebalance/rebalance/wait/listenEnd with Go timer semantics (Model/Life.lean), validated against the real stream (L1, real-time) and the real dcp.Dcp (L2, simulated node, notifications through the dcp's own bus) on every run. Kernel-checked for ALL op lists (Props/C11, C11Run over the phase invariant of Proofs/LifeLemmas): callbacks_bracketed (the callback trace is accepted by BSS ASS (BRS [BSP ASP] ARS BRE BSS ASS ARE)* [BSP ASP], the same automaton the run-time monitor uses: cbStep_eq_cbNext), no_delivery_while_closed, rebalance_never_stops_client / no_stop_in_window / rebalance_never_kills_client (under WaitPrompt), reopen_uses_latest_membership (the requests at a reopen are exactly the range of the membership current at that firing, from the stored seqnos), window_opens_with_delay + notify_in_window_postpones + nothing_fires_before_deadline (reopen no earlier than delay after the last notification), one_cycle_per_burst_partial under the two decidable classifiers (first-timer-nil = finding F5, timer-reassigned), with the full statement refuted (one_cycle_per_burst_full_refuted, one_cycle_per_burst_reassigned_refuted).",
     "level_note": "partial: macro-step model (WaitPrompt hypothesis), F5 and F9a are known findings; trusted: Lean kernel, Model/Life.lean, the real-time L1 harness with its margins",
 }
 PROPS["C12"] = {
     "streams": ["life-end"], "audit": ["C12.lean", "C12Run.lean"], "modules": ["GoDcp.Props.C12", "GoDcp.Props.C12Run"], "retry_divergence": 2, "timeout": 900,
     "rule": _LIFE_RULE, "assumptions": _LIFE_ASSUME + ["finite mode: the server ends a stream with OK exactly after the last event <= the requested end (simulated-node behaviour)"],
     "design_ref": "DESIGN.md §7 C12",
-    "level_text": "Kernel-checked decision logic of listenEnd on the validated life-cycle model: a transient end while running re-requests the vBucket from its current position and leaves the count alone, every other end decrements the active count by exactly one, stopCh is closed at a final end iff it was the last one and the stream is neither rebalancing nor already stopped, ends after Close are ignored; tied to the real code by generated end-cause sequences over 1-4 vBuckets (each transient and final cause) with the OpenStream log, active count and stopCh compared.",
+    "level_text": "Kernel-checked on the validated life-cycle model (Props/C12, C12Run): a transient end while running re-requests the vBucket from its current position - which is the last delivered-and-settled seqno of that vBucket (transient_reopens_from_settled) - and leaves the count alone; every other end decrements the active count by exactly one; active_eq / active_counts_unfinished: under the server hypothesis EndsOnce the count is the number of assigned vBuckets not yet finally ended; stop_iff_last_final_end / stops_iff_all_final: the stream stops on its own exactly at the end that finishes the last assigned vBucket, never earlier and never while rebalancing; ends after Close are ignored. Tied to the real code by generated end-cause sequences over 1-4 vBuckets (each transient and final cause, re-requests held in flight while the others end, ends during start-up) with the OpenStream log, active count and stopCh compared, and by the monitor clauses C12.stopped-before-all-ended / not-stopped-when-all-ended / reopen-not-from-position.",
     "level_note": "partial: F9a (a reopen retry loop spanning a rebalance close kills the client) is a known finding outside the generated histories; trusted: Lean kernel, Model/Life.lean, L1 harness",
 }
 PROPS["C13"] = {
@@ -30,6 +30,6 @@ PROPS["C13"] = {
     "clauses": ["C13", "C07.not-released", "C07.unsafe-delivery", "C05.concurrent-save-dropped"], "audit": ["C13.lean", "C13Run.lean"], "modules": ["GoDcp.Props.C13", "GoDcp.Props.C13Run"], "retry_divergence": 2, "timeout": 900,
     "rule": _LIFE_RULE, "assumptions": _LIFE_ASSUME + ["Close() = the stream-level part of dcp.close (Save when checkpoint.type=auto, then stream.Close); bounded time is measured by the harness, not proved"],
     "design_ref": "DESIGN.md §7 C13, §6 F4 F6",
-    "level_text": "Kernel-checked on the validated life-cycle model: stream.Close crashes exactly when the observers map is nil (doClose_none_iff), otherwise it closes every vBucket stream, closes the observers (no later delivery, later ends ignored) and emits no fail-stop (doClose_clean); the full statement is refuted inside the rebalance window (close_terminates_full_refuted = finding F4). Tied to the real code by shutdowns injected after open, mid-history and at every step of a rebalance.",
+    "level_text": "Kernel-checked on the validated life-cycle model (Props/C13, C13Run): shutdown_from_A_clean (from every reachable streaming state: no fail-stop, every stream closed, stopped), after_shutdown_quiet / after_shutdown_no_delivery (no delivery, request or write after it), final_save_covers_settled (auto: every dirty vBucket ends up stored at its position), close_failstops_iff = the exact characterisation of finding F4 (Close inside the rebalance window), shutdown_in_window_failstop, close_terminates_partial outside it, shutdown_idempotence, reb_timer_after_shutdown_failstops. Tied to the real code by shutdowns injected after open, mid-history and at every step of a rebalance (L1), through the real dcp.Dcp against the simulated node incl. the final save (L2), the trailing-save scenario (F6, repaired), gate scripts that close while events wait at the rollback-mitigation gate, and a save running into an in-flight save.",
     "level_note": "partial: F4 (Close inside a rebalance window) is a known finding; F6 (one trailing periodic save after Close) was repaired by fix: 06b98a1 and stays in the corpus; trusted: Lean kernel, Model/Life.lean, L1 harness",
 }
